@@ -141,6 +141,7 @@ struct nav {
             { it_t t = bi; if (i < n) { ++t; if (!(t == b + (i + 1))) bad("it-increment", vh::cat("++(begin+", i, ") != begin+", i + 1)); --t; if (!(t == bi)) bad("it-inc-dec", vh::cat("--(++(begin+", i, ")) != begin+", i)); } }
             { it_t t = bi; if (i > 0) { --t; if (!(t == b + (i - 1))) bad("it-decrement", vh::cat("--(begin+", i, ") != begin+", i - 1)); ++t; if (!(t == bi)) bad("it-dec-inc", vh::cat("++(--(begin+", i, "))")); } }
             { it_t t = bi; if (i < n) { it_t o = t++; if (!(o == bi) || !(t == b + (i + 1))) bad("it-postincrement", vh::cat("at ", i)); } }
+            { it_t t; t = bi; it_t u(b); using std::swap; swap(t, u); ++n_checks; if (!(u == bi) || !(t == b) || (u - t) != i) bad("it-assign-swap", vh::cat("default-constructed iterator assigned begin+", i, " then swapped with begin")); }
             for (long j = 0; j <= n; ++j) {
                 it_t bj = b + j;
                 ++n_checks;
@@ -168,6 +169,9 @@ struct nav {
             }
             for (long y = 0; y < h; ++y)
                 for (long x = 0; x < w; ++x) {
+                    { loc_t l; l = v.xy_at(x, y); loc_t l0 = v.xy_at(0, 0); using std::swap; swap(l, l0); same(*l0, x, y, "locator-assign-swap"); same(*l, 0, 0, "locator-assign-swap");
+                      xit_t xi; xi = v.x_at(x, y); xit_t x0 = v.row_begin(y); swap(xi, x0); same(*x0, x, y, "x-assign-swap"); if ((x0 - xi) != x) bad("x-assign-swap", vh::cat("(", x, ",", y, ")"));
+                      yit_t yi; yi = v.y_at(x, y); yit_t y0 = v.col_begin(x); swap(yi, y0); same(*y0, x, y, "y-assign-swap"); if ((y0 - yi) != y) bad("y-assign-swap", vh::cat("(", x, ",", y, ")")); }
                     typename CW::xy_locator cl(v.xy_at(x, y));
                     same(*cl, x, y, "const-locator-conversion");
                     if (!(cl == cv.xy_at(x, y))) bad("const-locator-conversion-equal", vh::cat("(", x, ",", y, ")"));
